@@ -391,8 +391,10 @@ def run(ctx, chk, tier="quick"):
                "W(a) ∩ (R(b) ∪ W(b)) = ∅ and W(b) ∩ (R(a) ∪ W(a)) = ∅",
                key="commute|%s|%s|%s" % (a, b, ",".join(conflicts)),
                why="a step that reads or writes what the other writes can see a different state depending on the order")
-    chk.floor("SQL write sites in the five steps", chk.counters.get("write_sites", 0), 12)
-    chk.floor("explicit transaction boundaries in the five steps", chk.counters.get("boundary_sites", 0), 3)
+    written = set()
+    for _, (R, W) in rw.items():
+        written |= W
+    chk.floor("distinct base tables written by the five steps", len(written), 12)
 
     # positive control for the zero-expected rule O2
     _positive_control(chk)
